@@ -11,7 +11,7 @@ def build(tier, seed):
         mm = member_module("C05", name)
         for sl, pre in load_slices(name, allow_bug=False).items():
             mm.ob(f"model_{sl}_{name}", LOAD_PARAMS, f"return c05_model(MEMBER, MODEL, TREE, LOADERS, lambda: build_data(MEMBER, TREE, {LOAD_ARGS}))",
-                  pre=pre, timeout=120 if tier == "quick" else 900, family="generated model loaders (stub fields) x name_mapping recipes",
+                  pre=pre, timeout=120 if tier == "quick" else 300, family="generated model loaders (stub fields) x name_mapping recipes",
                   bounds="slice " + sl + ": presence bits, symbolic stub codes, unknown keys, wrong node/root kinds, list truncation; 6 modes")
 
         mods.append(mm)
